@@ -11,6 +11,11 @@ def respond (line : String) : List String :=
     match parseCase (" ".intercalate rest) with
     | .error m => [s!"bad-request {m}"]
     | .ok c => facts entry c (e == "cli-ub")
+  | "wire" :: e :: rest =>
+    let entry := if e == "lib" then Entry.lib else Entry.cli
+    match parseWire (" ".intercalate rest) with
+    | .error m => [s!"bad-request {m}"]
+    | .ok r => wireFacts entry r
   | _ => ["bad-request unknown"]
 
 partial def loop (h : IO.FS.Stream) (out : IO.FS.Stream) : IO Unit := do
